@@ -395,6 +395,12 @@ pub fn run(ctx: &Ctx) -> i32 {
     if acc.stats.get("positions:use") == 0 {
         acc.inconclusive.push("no identifier use was probed".into());
     }
+    // workspaces of valid programs for which the server publishes diagnostics are not judged; if there are many of
+    // them the navigation answers were not really observed
+    let skipped = acc.stats.get("workspaces_with_diagnostics_skipped");
+    if skipped * 10 > wl.n {
+        acc.inconclusive.push(format!("the server published diagnostics for {skipped} of {} valid workspaces, which were therefore not judged", wl.n));
+    }
     acc.finish(
         "exploration",
         "G-wt multi-module workspaces (6-name identifier pool, qualified and unqualified imports) written to disk with an oal.toml; the real oal-lsp is started on each and asked textDocument/definition and textDocument/references at every UTF-16 position of every line of every module (including one past each line end); answers compared with the generator's span and binding tables converted by an independent UTF-16 line model; lenient zones: the position right after an identifier, qualifier and dot of a qualified use, binder tokens; every other session first opens each module with an unsaved draft of another line layout (broken: diagnostics; valid: locations), issues requests in it and closes it without saving; non-trivial = every workspace; distinct by source hash",
